@@ -36,12 +36,16 @@ class C05(Prop):
         sizes = [(w, h) for w in range(0, 61) for h in range(0, 31)]
         if tier == 'quick': sizes = [(w, h) for w in range(0, 8) for h in range(0, 5)] + [(rng.randint(0, 60), rng.randint(0, 30)) for _ in range(60)]
         for w, h in sizes:
-            st = rng.choice(STYLES) if tier == 'quick' else None
+            st = rng.choice(STYLES) if (tier == 'quick' and not (w < 4 and h < 3)) else None      # the smallest boxes in every style
             for style in ([st] if st else STYLES):
-                if style[3] and (w < 1 or h < 1): continue       # a rounded corner needs room
+                if style[3] and w < 1: continue       # a rounded box needs one column between its corners; no interior row is fine
                 sidepat = rng.choice([None, None, ':', '!']) if style[2] == '|' and h >= 3 else None
                 inner = None
                 if w >= 3 and h >= 3 and rng.random() < 0.4: inner = [''] + [' ' + rng.choice(['a', 'ok', 'x1'])[:w - 2]]
+                elif w >= 1 and h >= 1 and rng.random() < 0.35:
+                    # plain text anywhere inside, also touching the border (first/last interior row and column, a row filled edge to edge)
+                    lab = rng.choice(['a', 'ok', 'x1', 'label', 'T', 'é', 'no 7'])[:w]
+                    inner = [''] * h; inner[rng.randrange(h)] = ' ' * rng.randint(0, w - len(lab)) + lab
                 out.append(self.box_item(rng, w, h, style, rng.choice([0, 1, 5]), rng.choice([0, 2]), sidepat, inner))
         A = list("-|+.'`,~:! ")
         for _ in range(1500 if tier == 'quick' else 60000):
